@@ -159,6 +159,9 @@ func (maybeSelf someDef[T]) ToMaybe() MaybeDef[T] {
 		return maybeSelf
 	case someDef[T]:
 		return (ref).(someDef[T])
+	case MaybeDef[T]:
+		// Other Maybe implementations(e.g. None)
+		return (ref).(MaybeDef[T])
 	}
 }
 
